@@ -154,6 +154,34 @@ func sizeSweep(c *corr.Ctx, s *cu.Spec) {
 	c.DistN(s.Name+".size-sweep-cases", n)
 }
 
+// ---- the validity predicate itself ---------------------------------------------------------------
+
+// validCases compares the Go rendering of ValidFrame / ValidCfg (what the generators draw from)
+// with the Lean predicate the theorems assume, on valid frames and on mutated ones.
+func validCases(c *corr.Ctx, s *cu.Spec) {
+	fm := famOf(s)
+	rg := c.Rng
+	n := c.N(60, 3000)
+	for i := 0; i < n; i++ {
+		cs := corr.Case{Name: fmt.Sprintf("%s-valid-%d", s.Name, i), Nontrivial: true}
+		max := fm.pickMax(rg)
+		for k := 0; k < 12; k++ {
+			f := fm.genFrame(rg, max)
+			if k%3 != 0 {
+				f = fm.invalidate(rg, f)
+			}
+			cs.Ops = append(cs.Ops, s.Name+" vframe "+unitsStr(f))
+			cs.Impl = append(cs.Impl, corr.B(fm.validFrame(f)))
+			c.Dist(s.Name + ".vframe=" + corr.B(fm.validFrame(f)))
+		}
+		for _, m := range []int{0, 1, 2, 3, 4, 5, 1450, 65535, 65536, rg.IntN(70000)} {
+			cs.Ops = append(cs.Ops, fmt.Sprintf("%s vcfg %d", s.Name, m))
+			cs.Impl = append(cs.Impl, corr.B(m >= fm.minMax && m <= 65535))
+		}
+		c.Add(cs)
+	}
+}
+
 // ---- NALU-count and size caps (C08 / C03 boundary) ----------------------------------------------
 
 func capCases(c *corr.Ctx, s *cu.Spec) {
@@ -368,6 +396,7 @@ func Run(c *corr.Ctx) {
 		cu.RunAll(c, s)
 		if c.Want("C03") || c.Want("C06") {
 			sizeSweep(c, s)
+			validCases(c, s)
 		}
 		if c.Want("C07") {
 			faultSweep(c, s)
